@@ -529,19 +529,24 @@ impl<'a> TypeHumanizer<'a> {
     fn write_array_type<W: Write>(&mut self, inner: &LuaType, w: &mut W) -> fmt::Result {
         let saved = self.level;
         self.level = self.child_level();
-        let result = if matches!(inner, LuaType::Union(_)) {
-            // `T?[]` is read as `T?` by the annotation parser: an element that
-            // renders with a trailing `?` has to be parenthesized.
-            let mut element = String::new();
-            self.write_type(inner, &mut element).and_then(|_| {
-                if element.ends_with('?') {
-                    write!(w, "({})", element)
-                } else {
-                    w.write_str(&element)
-                }
-            })
-        } else {
-            self.write_type(inner, w)
+        let result = match inner {
+            LuaType::Union(_) => {
+                // `T?[]` is read as `T?` by the annotation parser: an element that
+                // renders with a trailing `?` has to be parenthesized.
+                let mut element = String::new();
+                self.write_type(inner, &mut element).and_then(|_| {
+                    if element.ends_with('?') {
+                        write!(w, "({})", element)
+                    } else {
+                        w.write_str(&element)
+                    }
+                })
+            }
+            // `-1[]` is read as `-(1[])`
+            LuaType::IntegerConst(i) | LuaType::DocIntegerConst(i) if *i < 0 => {
+                write!(w, "({})", i)
+            }
+            _ => self.write_type(inner, w),
         };
         self.level = saved;
         result?;
@@ -1316,6 +1321,15 @@ mod tests {
         assert_eq!(ws.humanize_type_detailed(ty), "(string|integer)[]");
         let ty = ws.ty("(string|integer|nil)[]");
         assert_eq!(ws.humanize_type_detailed(ty), "((string|integer)?)[]");
+    }
+
+    #[test]
+    fn test_array_of_negative_literal_is_parenthesized() {
+        let mut ws = VirtualWorkspace::new();
+        let ty = ws.ty("(-1)[]");
+        let rendered = ws.humanize_type_detailed(ty.clone());
+        assert_eq!(rendered, "(-1)[]");
+        assert_eq!(ws.ty(&rendered), ty);
     }
 
     #[test]
